@@ -775,6 +775,8 @@ func TestVF_C11_WitnesslessProver(t *testing.T) {
 			hidden = append(hidden, i)
 		}
 		e := cred.NonRevocationWitness.E
+		var forgedSacc *revocation.SignedAccumulator
+		var forgedNu *big.Int
 		run := func(name string, u, cu *big.Int, expectAccept bool) bool {
 			ab, err := newAdvBuilder(w.kp, cred, hidden, map[int]*big.Int{1: cred.Attributes[1]})
 			if err != nil {
@@ -782,7 +784,11 @@ func TestVF_C11_WitnesslessProver(t *testing.T) {
 			}
 			rAlpha := revocation.NewProofRandomizer()
 			ab.aC[w.cred.revIdx] = rAlpha
-			hn := newHarnessNonrev(rt, pk, e, u, cu, w.world.sacc, w.world.acc.Nu, rAlpha)
+			sacc, nu := w.world.sacc, w.world.acc.Nu
+			if forgedSacc != nil {
+				sacc, nu = forgedSacc, forgedNu
+			}
+			hn := newHarnessNonrev(rt, pk, e, u, cu, sacc, nu, rAlpha)
 			wb := &advNonrevWrapper{adv: ab, nb: hn, keepAlpha: rapid.Bool().Draw(rt, "keepAlpha")}
 			nonce := w.nextNonce()
 			apl, err := ProofBuilderList{wb}.BuildProofList(ctx, nonce, false)
@@ -809,6 +815,16 @@ func TestVF_C11_WitnesslessProver(t *testing.T) {
 				rec.Case("witnessless/"+name+"/"+how, !expectAccept, fmt.Sprintf("wl|%s|%s|%s|%d", w.kp.Name, name, how, w.nonce))
 				if ps != "" {
 					return rec.Fail(rt, ps+":"+name, det)
+				}
+				if !expectAccept && !acc {
+					// a verifier that looks at the same proof object again must refuse it again
+					ps := vfh.Guard(func() { acc = l.Verify(keys1(w.kp), ctx, nonce, false, nil) })
+					if ps != "" {
+						return rec.Fail(rt, ps+":"+name+":second-verification-of-the-same-object", det)
+					}
+					if acc {
+						return rec.Fail(rt, "nonrev-proof-without-valid-witness-accepted:"+name+":second-verification-of-the-same-object", det)
+					}
 				}
 				if expectAccept {
 					if !acc && c11Ambiguous(l[0].(*ProofD)) {
@@ -842,6 +858,21 @@ func TestVF_C11_WitnesslessProver(t *testing.T) {
 		}{{"C_u=0", bi(0)}, {"C_u=n", new(big.Int).Set(pk.N)}, {"C_u=2n", new(big.Int).Lsh(pk.N, 1)}} {
 			if !run(s.name, nil, s.cu, false) {
 				return
+			}
+		}
+		// an accumulator of the holder's own making (nu' = u^e for a u of his choice, any index and
+		// time), "signed" with a key that is not the issuer's, and an otherwise honest proof against it
+		okp := getKey("toyrev", (int(w.kp.Pk.Counter)+3)%8)
+		if okp.Sk.N.Cmp(w.kp.Sk.N) != 0 {
+			u := new(big.Int).Exp(pk.S, bi(int64(rapid.IntRange(2, 1<<20).Draw(rt, "forgedU"))), pk.N)
+			forgedNu = new(big.Int).Exp(u, e, pk.N)
+			facc := &revocation.Accumulator{Nu: forgedNu, Index: w.world.acc.Index + uint64(rapid.IntRange(0, 3).Draw(rt, "forgedIdx")), Time: w.world.acc.Time + 1000, EventHash: w.world.acc.EventHash}
+			fs, err := facc.Sign(okp.Sk)
+			if err == nil {
+				forgedSacc = &revocation.SignedAccumulator{Data: fs.Data, PKCounter: pk.Counter}
+				if !run("own-accumulator-not-signed-by-issuer", u, nil, false) {
+					return
+				}
 			}
 		}
 	})
